@@ -308,7 +308,19 @@ def main():
             for k in r.get("killed_by", []):
                 per[k] = per.get(k, 0) + 1
         print("caught per check:", dict(sorted(per.items())))
+        tri = {}
+        tp = os.path.join(VERIF, "mutants", "triage.json")
+        if os.path.exists(tp):
+            tri = json.load(open(tp))
+        cls = {}
         for r in passing:
+            if r["status"] != "killed":
+                k = tri.get(r["id"], ["untriaged"])[0]
+                cls[k] = cls.get(k, 0) + 1
+        print("survivors by triage class:", cls)
+        for r in passing:
+            if r["status"] != "killed" and r["id"] in tri:
+                continue
             if r["status"] != "killed":
                 print("SURVIVED" if r["status"] == "survived" else r["status"].upper(), r["id"], f"{r['file']}:{r['line']}", r["op"], "|", r["old"].strip()[:110])
     elif a[0] == "clean":
